@@ -36,7 +36,8 @@ Definition sess_removed (cfg : svcfg) (s s' : svstate) (it : sitem) : Prop :=
     (∀ sid', slist s' sid' = filter (λ c, is_hold n k c = false) (slist s sid')) ∧
     v_file s' = if listed s n k && sc_file cfg then Some (v_sess s') else v_file s.
 Definition sess_destroyed (cfg : svcfg) (s s' : svstate) (it : sitem) : Prop :=
-  ∃ tid t sid, it = VRun tid ∧ v_thr s !! tid = Some t ∧ st_op t = SConnEnd sid ∧ st_pc t = VDsDestroy ∧
+  ∃ tid t sid, it = VRun tid ∧ v_thr s !! tid = Some t ∧ st_op t = SConnEnd sid ∧
+    (st_pc t = VDsDestroy ∨ (st_pc t = VDsNoClear ∧ v_sess s !! sid = Some [])) ∧
     (∀ sid', slist s' sid' = if decide (sid' = sid) then [] else slist s sid') ∧
     v_file s' = if bool_decide (is_Some (v_sess s !! sid)) && sc_file cfg then Some (v_sess s') else v_file s.
 
@@ -56,7 +57,7 @@ Proof.
     1-2: right; right; left; do 4 eexists; split; [done|]; split; [exact Ht|]; split; [first [by left | right; by eauto 10]|]; split;
       [ intros sid'; erewrite slist_frame by (autorewrite with svf; reflexivity); apply slist_sess_remove
       | autorewrite with svf; rewrite file_sess_remove; reflexivity ].
-    1-2: right; right; right; do 3 eexists; split; [done|]; split; [exact Ht|]; split; [done|]; split; [done|]; split;
+    1-2: right; right; right; do 3 eexists; split; [done|]; split; [exact Ht|]; split; [done|]; split; [by (left + right)|]; split;
       [ intros sid'; erewrite slist_frame by (autorewrite with svf; reflexivity); apply slist_sess_destroy
       | autorewrite with svf; rewrite file_sess_destroy; reflexivity ].
     change (fold_left _ _ _) with (net_stop s). left. destruct (net_stop_frame _ _ I) as [E1 E2 _ _ _ _ _].
@@ -87,16 +88,22 @@ Definition pc_step (op : sop) (pc pc' : spc) : Prop :=
   | VCbSessRemove, SExpire _ => pc' = VCbTmRemove
   | VCbTmRemove, SExpire _ => pc' = VEnd
   | VDsFlag, SConnEnd _ => pc' = VEnd ∨ pc' = VDsNoClear ∨ pc' = VDsDestroy
-  | VDsNoClear, SConnEnd _ => pc' = VEnd ∨ pc' = VDsDestroy
+  | VDsNoClear, SConnEnd _ => pc' = VEnd
   | VDsDestroy, SConnEnd _ => pc' = VEnd ∨ ∃ l, pc' = VDsTmRemove l
   | VDsTmRemove _, SConnEnd _ => pc' = VEnd ∨ (∃ c l, pc' = VDsUnlock c l) ∨ ∃ l, pc' = VDsTmRemove l
-  | VDsUnlock _ _, SConnEnd _ => ∃ l, pc' = VDsTmRemove l
+  | VDsUnlock _ _, SConnEnd _ => pc' = VEnd ∨ ∃ l, pc' = VDsTmRemove l
   | VShFlag, SShutdown => pc' = VShNet
   | VShNet, SShutdown => pc' = VShTimers
   | VShTimers, SShutdown => pc' = VShMgr
   | VShMgr, SShutdown => pc' = VEnd
   | _, _ => False
   end.
+
+Lemma ds_next_step2 l : ds_next l = VEnd ∨ ∃ l', ds_next l = VDsTmRemove l'.
+Proof. destruct l; simpl; eauto. Qed.
+Lemma ds_next_step3 l : ds_next l = VEnd ∨ (∃ c l', ds_next l = VDsUnlock c l') ∨ ∃ l', ds_next l = VDsTmRemove l'.
+Proof. destruct l; simpl; eauto. Qed.
+#[local] Hint Resolve ds_next_step2 ds_next_step3 : core.
 
 Lemma setpc_setpc pc pc' t : setpc pc' (setpc pc t) = setpc pc' t.
 Proof. by destruct t. Qed.
